@@ -45,6 +45,17 @@ pub fn generate(g: &mut Gen, thorough: bool) {
             }
         }
     }
+    // central meridians (and centres) given beyond a half turn: for the projections that are not periodic in the
+    // longitude too (omerc, btmerc), `lon_0 = L` is the operator with `lon_0 = 0` fed with longitudes less `L`
+    for (name, shape) in [("omerc", "latc=36 alpha=30 gamma_c=30"), ("omerc", "latc=-20 alpha=53.3 gamma_c=53.1 variant"), ("btmerc", "k_0=0.9996"), ("tmerc", "k_0=0.9996"), ("lcc", "lat_1=33 lat_2=45"), ("somerc", "lat_0=46.95")] {
+        for l in [190.0, 359.0, -200.5, 181.0, 177.0] {
+            let key = if name == "omerc" { "lonc" } else { "lon_0" };
+            let (a, b) = (format!("{name} {shape} {key}={l}"), format!("{name} {shape} {key}=0"));
+            let pts: Vec<[f64; 4]> = [-3.0f64, -1.0, 0.5, 2.5].iter().map(|d| [(l + d).to_radians(), (if shape.contains("latc=-20") { -20.0f64 } else { 40.0f64 } + d).to_radians(), 0.0, 0.0]).collect();
+            pair(g, "lon0", &a, &b, &[l], &pts, "oracle-lon0-beyond-a-half-turn");
+            g.push(op_line("default", &[], &[], &a, "apply", "F", &data_of(&pts)), "model-lon0-beyond-a-half-turn", true);
+        }
+    }
     // operators that do not declare lon_0 (webmerc; utm and butm have their zone): given all the same, it is ignored —
     // or, should it be accepted one day, it means what it means everywhere
     for (def, lon_0) in [("webmerc", 10.0), ("webmerc ellps=intl", -75.5), ("utm zone=32", 3.0), ("butm zone=33", 9.0)] {
